@@ -107,3 +107,41 @@ def TPoints.fromCoordinates (cs : List (DType × Coord α)) : Except Err (TPoint
   | none => pure ⟨.f32, r⟩
 
 end TPV.Table
+
+/-! ## one object over time: the state of a `Points` object is its typed table and the
+    `requires_grad` flag of its tensor; every read accessor is a function of that state only -/
+namespace TPV.Table
+variable {α : Type}
+
+structure Obj (α : Type) where
+  t : TPoints α
+  grad : Bool
+
+/-- the state-changing operations of a `Points` object -/
+inductive Mut (α : Type) where
+  | set (ix : Index) (q : TPoints α)     -- `p[ix] = q`
+  | to (d : DType)                       -- `p.to(dtype)`: rebinds the tensor
+  | setGrad (b : Bool)                   -- `p.requires_grad = b`
+
+/-- torch refuses in-place writes into a leaf tensor that requires grad, and `requires_grad = True`
+    on an integer tensor; `to` keeps the cells (conversion that rounds is outside the model: the
+    driver answers `unmodelled` when a cell is not a value of the new type) -/
+def Obj.step (o : Obj α) : Mut α → Except Err (Obj α)
+  | .set ix q => if o.grad then throw .runtime else do let t ← o.t.setitem ix q; pure ⟨t, o.grad⟩
+  | .to d => pure ⟨⟨d, o.t.pts⟩, o.grad && decide (d ≠ .i64)⟩
+  | .setGrad b => if b ∧ o.t.dtype = .i64 then throw .runtime else pure ⟨o.t, b⟩
+
+def Obj.run (o : Obj α) : List (Mut α) → Except Err (Obj α)
+  | [] => pure o
+  | m :: ms => do let o' ← o.step m; o'.run ms
+
+/-! the read accessors -/
+def Obj.asTensor (o : Obj α) : DType × List Nat × List (List α) := (o.t.dtype, o.t.pts.shape, o.t.pts.data)
+def Obj.coordinates (o : Obj α) : List (String × DType × Bool × List (List α)) :=
+  o.t.pts.coordinates.map fun c => (c.1, o.t.dtype, o.grad, c.2)
+def Obj.byName (o : Obj α) (v : String) : Except Err (TPoints α) := o.t.getitem (.tup [.ell, .name v])
+def Obj.len (o : Obj α) : Nat := o.t.pts.len
+def Obj.isempty (o : Obj α) : Bool := o.t.pts.isempty
+def Obj.requiresGrad (o : Obj α) : Bool := o.grad
+
+end TPV.Table
